@@ -10,7 +10,6 @@ use super::context::{
     Config, Error, Node, ValidationContext, ValidationState,
 };
 use super::utilities::{make_ede, map_dname, ttl_for_sig};
-use crate::base::cmp::CanonicalOrd;
 use crate::base::iana::ExtendedErrorCode;
 use crate::base::iana::class::Class;
 use crate::base::name::ToName;
@@ -603,9 +602,7 @@ impl Group {
         //   equal to the time listed in the RRSIG RR's Expiration field.
         // - The validator's notion of the current time MUST be greater than or
         //   equal to the time listed in the RRSIG RR's Inception field.
-        if ts_now.canonical_gt(&rrsig.expiration())
-            || ts_now.canonical_lt(&rrsig.inception())
-        {
+        if !sig_in_force(rrsig, ts_now) {
             return false;
         }
 
@@ -655,10 +652,7 @@ impl Group {
         // when we are asked, so that part of the answer cannot come from
         // the cache: a signature that was fine when it was first seen may
         // have expired since.
-        let ts_now = Timestamp::now();
-        if ts_now.canonical_gt(&sig.data().expiration())
-            || ts_now.canonical_lt(&sig.data().inception())
-        {
+        if !sig_in_force(sig.data(), Timestamp::now()) {
             return false;
         }
 
@@ -1031,6 +1025,20 @@ fn to_bytes_record(
             record.data().clone(),
         ),
     )
+}
+
+/// Returns whether `now` lies within the validity period of a signature.
+///
+/// Inception and expiration are serial numbers (RFC 4034, Section 3.1.5),
+/// so they are compared using serial number arithmetic: a period may
+/// straddle the point where the 32 bit value wraps around. Times that are
+/// exactly 2^31 seconds apart cannot be ordered and make the signature
+/// unusable.
+fn sig_in_force(rrsig: &Rrsig<Bytes, Name<Bytes>>, now: Timestamp) -> bool {
+    use core::cmp::Ordering::{Equal, Less};
+
+    matches!(rrsig.inception().partial_cmp(&now), Some(Less | Equal))
+        && matches!(now.partial_cmp(&rrsig.expiration()), Some(Less | Equal))
 }
 
 /// Key for the signature cache. The key consists of 3 Vecs of u8.
